@@ -400,6 +400,7 @@ def sevm_cases():
         ex0 = made[0]
         ts = ex0.transient_storage
         ctx.oblige("transient storage starts empty for every account in every transaction", z3.BoolVal(set(map(str, ts)) == set(map(str, pre.transient_storage)) and all(len(sd._mapping) == 0 for sd in ts.values())))
+        ctx.oblige("every account gets a transient map of its own (a TSTORE of one account is never visible to another)", z3.BoolVal(len({id(v) for v in ts.values()}) == len(ts) and len(ts) >= 2))
         ctx.oblige("the new transient maps are fresh objects (the previous transaction's are untouched)", z3.BoolVal(ts is not pre.transient_storage and all(ts[a] is not pre.transient_storage[a] for a in ts) and len(pre.transient_storage[THIS]._mapping) == 1))
         ctx.oblige("persistent storage is carried over as a private copy", z3.BoolVal(ex0.storage is not pre.storage and all(ex0.storage[a] is not pre.storage[a] for a in ex0.storage) and {str(a): {str(k): str(v) for k, v in sd._mapping.items()} for a, sd in ex0.storage.items()} == {str(a): {str(k): str(v) for k, v in sd._mapping.items()} for a, sd in pre.storage.items()}))
 
@@ -471,6 +472,13 @@ def offsetmap_cases():
                 ctx.oblige("delta = looked-up value - registered hash value, so the term denotes the looked-up value", r.arg(1).arg(0) == d.e)
         reg2 = interp.call(hs.KeccakRegistry.__dict__["copy"], [reg], {})
         ctx.oblige("registry copy is independent", z3.BoolVal(reg2 is not reg and reg2._hash_ids is not reg._hash_ids and reg2._hash_values is not reg._hash_values and expr in reg2._hash_ids))
+        # ... and complete: what the original can trace back to a preimage, the copy can too (the copy is what every
+        # forked path and every new transaction works with)
+        m1, m2 = reg._hash_values._map, reg2._hash_values._map
+        carried = type(m2) is type(m1) and len(getattr(m2, "items_", ())) == len(getattr(m1, "items_", ()))
+        r2 = interp.call(hs.KeccakRegistry.__dict__["reverse_lookup"], [reg2, key], {}) if carried else None
+        same = carried and ((r is None and r2 is None) or (r is not None and r2 is not None and z3.eq(z3.simplify(r2), z3.simplify(r))))
+        ctx.oblige("registry copy is complete: the copy traces the same hash value (plus offset) back to the same preimage term, and has the same ids", z3.BoolVal(bool(same) and dict(reg2._hash_ids) == dict(reg._hash_ids)), info={"original": str(r)[:80], "copy": str(r2)[:80]})
         interp.call(hs.KeccakRegistry.__dict__["register"], [reg, expr, None], {})
         ctx.oblige("registering the same expression again changes nothing", z3.BoolVal(len(reg._hash_ids) == 1))
 
